@@ -95,7 +95,10 @@ def sweep(ctx, n):
                             ("orientation", R.random(2, rng=nps)), ("style_color", "blue"), ("style_opacity", 0.5), ("style_label", "other")]
                     for a_ in ("dimension", "diameter", "polarization", "current", "moment"):
                         if getattr(o, a_, None) is not None:
-                            pool.append((a_, np.asarray(getattr(o, a_), dtype=float) * 1.5 if a_ != "current" else float(o.current) * 1.5))
+                            val_ = np.asarray(getattr(o, a_), dtype=float) * 1.5 if a_ != "current" else float(o.current) * 1.5
+                            if a_ == "dimension" and np.size(val_) == 5:  # CylinderSegment: lengths scaled, angles kept
+                                val_[3:] = np.asarray(o.dimension, dtype=float)[3:]
+                            pool.append((a_, val_))
                     picks = rng.sample(pool, rng.choice([1, 2, 3]))
                     kw = {}
                     for k_, v_ in picks:
@@ -126,6 +129,23 @@ def sweep(ctx, n):
                 bad(f"copy-has-parent:{kind}", "copy has a parent")
             if parent is not None and ([id(x) for x in parent.children] != parent_children or o.parent is not parent):
                 bad(f"copy-touched-tree:{kind}", "copy() changed the original's parent/children links")
+            # a copy that is REFUSED (a keyword value its setter rejects, a misspelt style keyword): it raises, and the original — its
+            # attributes, its place in its parent, the parent's children — is exactly as before
+            if parent is not None or i % 2 == 0:
+                badkw = rng.choice([{"position": "bad"}, {"orientation": 5}, {"style_colour": "red"}, {"position": (1, 2)}, {"style_opacity": "thick"},
+                                    {"position": (1.0, 2.0, 3.0), "orientation": "bad"}])
+                before_fail = public_state(o)
+                pc_before = None if parent is None else [id(x) for x in parent.children]
+                try:
+                    o.copy(**badkw)
+                    refused = False
+                except Exception:  # noqa: BLE001
+                    refused = True
+                kinds["refused-copy"] = kinds.get("refused-copy", 0) + 1
+                if refused and (public_state(o) != before_fail or o.parent is not parent or (parent is not None and [id(x) for x in parent.children] != pc_before)
+                                or (parent is not None and not any(o is x for x in parent.children))):
+                    bad(f"refused-copy-changed-original:{kind}", f"copy({', '.join(badkw)}) raised and left the original changed (parent kept: {o.parent is parent}; "
+                        f"still listed by its parent: {parent is None or any(o is x for x in parent.children)})", {"class": type(o).__name__, "keywords": list(badkw)})
             # subtree consistency inside the copy
             if hasattr(c, "children"):
                 for ch in c.children_all:
